@@ -54,7 +54,8 @@ fn gray2(compressed: bool) {
     let r = read2(PixelFormat::Grayscale, &b, compressed);
     let p = match r {
         Ok(p) => p.validate(None, &PixelFormat::Grayscale, false).unwrap(),
-        Err(_) => {
+        Err(e) => {
+            core::mem::forget(e);
             assert!(false, "grayscale pixels decode");
             return;
         }
@@ -99,7 +100,8 @@ fn indexed2(compressed: bool) {
     let r = read2(fmt, &b, compressed);
     let p = match r {
         Ok(p) => p.validate(Some(pal), &fmt, bg).unwrap(),
-        Err(_) => {
+        Err(e) => {
+            core::mem::forget(e);
             assert!(false, "indexed pixels decode");
             return;
         }
